@@ -1,0 +1,18 @@
+// Copyright 2026 The OWASP Coraza contributors
+// SPDX-License-Identifier: Apache-2.0
+
+//go:build verif
+
+package operators
+
+import "sort"
+
+// VerifNames lists the registered names (sorted), for the verification harness.
+func VerifNames() []string {
+	out := make([]string, 0, len(operators))
+	for k := range operators {
+		out = append(out, k)
+	}
+	sort.Strings(out)
+	return out
+}
